@@ -203,6 +203,21 @@ def _op_fmethod(name):
     return make
 
 
+_ITERABLE_FORMS = ('list', 'tuple', 'set', 'generator', 'iterator')
+
+
+def _as_form(form, xs):
+    if form == 'list':
+        return list(xs)
+    if form == 'tuple':
+        return tuple(xs)
+    if form == 'set':
+        return set(xs)
+    if form == 'generator':
+        return (x for x in xs)
+    return iter(list(xs))
+
+
 def _op_ite(w, rng):
     g, a, b = w.pool[0], w.pool[1], w.pool[2]
     return (lambda: w.bdd.ite(g.h, a.h, b.h)), \
@@ -215,14 +230,17 @@ def _op_quantify(how):
         qv = rng.sample(list(w.sp.names), 2)
         fa = rng.random() < 0.5
         want = (w.sp.forall if fa else w.sp.exists)(a.tt, qv)
+        # `qvars` is declared as an iterable of names
+        form = rng.choice(_ITERABLE_FORMS)
+        w.ctx.count('qvars_as_' + form)
         if how == 'quantify':
-            fn = lambda: w.bdd.quantify(a.h, qv, forall=fa)
+            fn = lambda: w.bdd.quantify(a.h, _as_form(form, qv), forall=fa)
         elif how == 'exist':
             want = w.sp.exists(a.tt, qv)
-            fn = lambda: w.bdd.exist(qv, a.h)
+            fn = lambda: w.bdd.exist(_as_form(form, qv), a.h)
         else:
             want = w.sp.forall(a.tt, qv)
-            fn = lambda: w.bdd.forall(qv, a.h)
+            fn = lambda: w.bdd.forall(_as_form(form, qv), a.h)
         return fn, want, 'quantify'
     return make
 
@@ -253,8 +271,16 @@ def _op_let_compose(k):
 
 
 def _op_cube(w, rng):
-    d = {v: rng.random() < 0.5 for v in w.sp.names}
-    return (lambda: w.bdd.cube(d)), w.sp.cube_table(d), 'cube'
+    # an assignment, or an iterable of names (all true)
+    form = rng.choice(('dict', 'dict') + _ITERABLE_FORMS)
+    w.ctx.count('cube_arg_as_' + form)
+    if form == 'dict':
+        d = {v: rng.random() < 0.5 for v in w.sp.names}
+        return (lambda: w.bdd.cube(d)), w.sp.cube_table(d), 'cube'
+    vs = rng.sample(list(w.sp.names), rng.randint(1, len(w.sp.names)))
+    d = {v: True for v in vs}
+    return (lambda: w.bdd.cube(_as_form(form, vs))), w.sp.cube_table(d), \
+        'cube'
 
 
 def _op_var(w, rng):
